@@ -246,6 +246,12 @@ def run(prog, ctx):
         res.undecided += 1
     mf = stores.get("merge_flag", [])
     mblocks = set(b for b, e, _ in mf if e == ("const", True))
+    # a helper that (transitively) stores merge_flag counts as well
+    for b_, site_ in tsk.calls():
+        tgt_ = site_.get("callee")
+        if tgt_ in prog.fns and tgt_.startswith("cpc::union::") and any(True for g_ in C.reach_from(prog, [tgt_]) if g_.id.startswith("cpc::union::")
+                                                                         for _ in sym.field_stores(prog, adt="cpc::sketch::CpcSketch", field="merge_flag", fns=[g_])):
+            mblocks.add(b_)
     # every return of a non-empty sketch passes a merge_flag = true store: paths avoiding those blocks may only be the empty-accumulator path
     empties = [b for b, site in tsk.calls() if (site.get("callee") or "").endswith("CpcSketch::with_seed")]
     okm = bool(mblocks)
